@@ -25,7 +25,7 @@ package index
 //gvc:  props C12
 //gvc:  theory int
 //gvc:  results err
-//gvc:  modifies e.w.#wlen, e.w.#wdata
+//gvc:  modifies e.w.#sink
 //gvc:  requires nn: idx != nil && e.w != nil
 //gvc:  requires wrote: 0 <= wrote && wrote <= 0x10000000
 //gvc:  ensures v4: idx.Version == 4 ==> e.w.#wlen == old(e.w.#wlen)
